@@ -103,6 +103,18 @@ theorem transforms_solve_mna (hE : IsExp E) (tcs : List (TCpt K)) (x : Ix → Si
     Solves .ivp s (tcs.map (atS E s)) (transformOf E x s) :=
   (C01.mna_iff_laws .ivp s _ _ hwf).mpr (laws_s_of_laws_t E hE tcs x hrest h s hs)
 
+/-- **response_unique_partial**: two time-domain solutions of one netlist (same sources, same initial state) have the same
+    transform at every point that is regular for both and at which the MNA system is non-singular — i.e. the time
+    response is THE inverse transform of the unique s-domain solution (C01 `laws_unique`).
+    PARTIAL: equality of the signals themselves (as normal forms) additionally needs injectivity of `L`, which is not
+    proved here (linear independence of the `1/(s−p)^k` and of the delay factors). -/
+theorem response_unique_partial (hE : IsExp E) (tcs : List (TCpt K)) (x y : Ix → Signal K)
+    (hrx : RestWhereUnspecified tcs x) (hry : RestWhereUnspecified tcs y)
+    (hx : LawsT E tcs x) (hy : LawsT E tcs y) (s : K) (hsx : Regular tcs x s) (hsy : Regular tcs y s)
+    (hwf : C01.WF (tcs.map (atS E s))) (hns : C01.Nonsingular .ivp s (tcs.map (atS E s))) :
+    ∀ i, i ≠ Ix.node 0 → L E (x i).post s = L E (y i).post s :=
+  C01.laws_unique .ivp s _ _ _ hwf hns (laws_s_of_laws_t E hE tcs x hrx hx s hsx) (laws_s_of_laws_t E hE tcs y hry hy s hsy)
+
 /-- **response_is_ilt**: the time response obtained by inverting (`ilt`, the mirror of
     `InverseLaplaceTransformer.ratfun`) partial-fraction data of an s-domain solution satisfies the time-domain laws.
     `X ix s = Σ evalPF` is the s-domain solution written in partial fractions (one `PF` per delay factor);
@@ -356,6 +368,24 @@ example : RestWhereUnspecified exTcs exX := by
   simp only [exTcs, List.mem_cons, List.not_mem_nil, or_false] at hc
   rcases hc with rfl | rfl | rfl <;> trivial
 example : IsExp (fun _ : ℚ => (1 : ℚ)) := ⟨fun _ _ => by simp, rfl⟩
+/-- regular points exist: `s = 2` is not a pole of any signal of the example (poles 0 and −1) -/
+example : Regular exTcs exX 2 := by
+  constructor
+  · intro ix t ht
+    match ix with
+    | .node 0 => simp [exX] at ht
+    | .node 1 => simp [exX] at ht; subst ht; norm_num
+    | .node 2 => simp [exX] at ht; rcases ht with rfl | rfl <;> norm_num
+    | .node (k + 3) => simp [exX] at ht
+    | .br 0 => simp [exX] at ht; subst ht; norm_num
+    | .br (m + 1) => simp [exX] at ht
+  · intro c hc t ht
+    simp only [exTcs, List.mem_cons, List.not_mem_nil, or_false] at hc
+    rcases hc with rfl | rfl | rfl <;> simp at ht
+    subst ht; norm_num
+-- the hypotheses of `ic_start` on the example: the capacitor current e^{−t} has no impulse, v_C(0⁺) = 3 = v0
+example : impulse0 ([.ep 1 0 (-1) 0] : ExpPoly ℚ) = 0 := by decide +kernel
+example : FormalZero (subP ([.ep 1 0 (-1) 0] : ExpPoly ℚ) (capCurrentT exX 2 0 (1 / 2) (some 3))) := by decide +kernel
 example : val0plus (vpost exX 2 0) = 3 := by decide +kernel
 example : NoDelta (vpost exX 2 0) := by
   intro t ht
